@@ -13,11 +13,12 @@ git apply --check $out/patch.diff
 rundemo() {
   make -s -C $wt clean >/dev/null 2>&1 || true
   make -s -C $wt all > $out/build_$1.log 2>&1 || { echo "FAIL: build ($1)"; tail $out/build_$1.log; return 9; }
-  if [ -f $wt/_seed/demo.sh ]; then ( cd $wt && sh _seed/demo.sh ) > $out/demo_$1.log 2>&1; rc=$?
-  else
-    extra=""; grep -q pthread $wt/_seed/RUN.txt && extra="-lpthread"
-    cc -O2 -I$wt/include -I$wt/src -o $wt/_seed/demo $wt/_seed/demo.c $wt/src/libskinny.a $extra >> $out/build_$1.log 2>&1 || { echo "FAIL: demo build"; tail $out/build_$1.log; return 9; }
-    ( cd $wt/_seed && ./demo ) > $out/demo_$1.log 2>&1; rc=$?
+  if [ -f $wt/_seed/demo.sh ]; then
+    [ -f $wt/_seed/demo.c ] && cc -O2 -I$wt/include -I$wt/src -o $wt/_seed/demo $wt/_seed/demo.c $wt/src/libskinny.a >/dev/null 2>&1   # helper used by some demo.sh scripts
+    ( cd $wt && sh _seed/demo.sh ) > $out/demo_$1.log 2>&1; rc=$?
+  else ( cd $wt && sh _seed/RUN.txt ) > $out/demo_$1.log 2>&1; rc=$?      # RUN.txt: the exact commands, as shell
+    grep -q "FAIL" $out/demo_$1.log && rc=1
+    grep -q "PASS" $out/demo_$1.log || rc=1
   fi
   return $rc
 }
